@@ -65,6 +65,15 @@ static void ares_event_thread_wake(const ares_event_thread_t *e)
   ares_event_signal(e->ev_signal);
 }
 
+void ares_event_thread_wake_channel(const ares_channel_t *channel)
+{
+  if (channel == NULL || !(channel->optmask & ARES_OPT_EVENT_THREAD)) {
+    return;
+  }
+
+  ares_event_thread_wake(channel->sock_state_cb_data);
+}
+
 /* See if a pending update already exists. We don't want to enqueue multiple
  * updates for the same event handle. Right now this is O(n) based on number
  * of updates already enqueued.  In the future, it might make sense to make
@@ -560,6 +569,11 @@ ares_status_t ares_event_thread_init(ares_channel_t *channel)
 }
 
 void ares_event_thread_destroy(ares_channel_t *channel)
+{
+  (void)channel;
+}
+
+void ares_event_thread_wake_channel(const ares_channel_t *channel)
 {
   (void)channel;
 }
